@@ -42,4 +42,11 @@ var propMeta = map[string]*PropMeta{
 		Real:  realS, Stub: stubS, Assumptions: commonAssumptions,
 		Probes: []string{"probe.tenth-flush", "fault.restart.clean", "fault.mempressure", "op.flushcheck"},
 	},
+	"C02": {
+		Level: "fault_enumeration", QuickSecs: 50, ThoroughSecs: 900, Recycle: 200,
+		Rule: "seeds come in blocks of 100 that share one generated base history (schema incl. view, 4-40 inserts, forced/timer flushes, clock advances incl. >10 s for old-file removal). Variants 0-79 of a block ENUMERATE the instrumented crash points: each of the 20 hook sites of the flush / offset-file / old-file-removal / open / ingest protocols x occurrences 1-4 (a crash = directory image taken synchronously inside the hook, restart = NewDB on the image); variants 80-99 SAMPLE fault schedules of 1-4 rounds: kills at quiescent instants, kills with an insert in flight (torn WAL tail of 5 prefix classes), injected I/O errors at the flush/offset sites (-> db.Panic -> crash image), clean restarts, crash points at later occurrences, and (variants 94-99) long-uptime histories where the process outlives the table's retention period. Oracle: ack ledger + reference aggregator: after the last restart and catch-up every table equals the model of all acknowledged points plus some subset of the in-flight points (so each in-flight point is reflected 0 or 1 times, all fields or none), before and after one more flush. Non-trivial = a table with >= 1 expected row was compared; distinct as for C01 (the fault trace is part of the hash).",
+		Real:  realS, Stub: stubS,
+		Assumptions: append([]string{"process-kill model: every completed system call survives, user-space state is lost (DESIGN 3.7); power loss is not modelled", "crash points beyond the 4th occurrence of a site are sampled, not enumerated"}, commonAssumptions...),
+		Probes: []string{"fault.crash.site", "fault.crash.quiescent", "fault.crash.inflight", "fault.crash.ioerr", "fault.restart.clean", "probe.inflight-applied", "site.gc.removed", "site.open.fileChosen"},
+	},
 }
